@@ -81,6 +81,21 @@ inductive Val
   | frame (id : String) (vals : List Val)
 deriving Repr, Inhabited
 
+mutual
+/-- structural equality test on values (for examples and the driver) -/
+def Val.beq : Val → Val → Bool
+  | .int a, .int b => a == b
+  | .bytes a, .bytes b => a == b
+  | .text a, .text b => a == b
+  | .list a, .list b => Val.beqList a b
+  | .frame i a, .frame j b => i == j && Val.beqList a b
+  | _, _ => false
+def Val.beqList : List Val → List Val → Bool
+  | [], [] => true
+  | a :: as, b :: bs => Val.beq a b && Val.beqList as bs
+  | _, _ => false
+end
+
 /-- what the reader knows from the tag header -/
 structure Hdr where
   version : Nat          -- 2, 3 or 4 (`header.version[1]`)
